@@ -274,15 +274,15 @@ var _ uuid.UUID
 //@ set sought = 1
 //@ end
 //@ at call badgerWAL).writeSnapshot
-//@ requires [C06 snapshot-at-requested-index] sought == 1 && $arg2.Metadata.Index == idx && $arg2.Data == data && $arg2.Metadata.ConfState == *confState
+//@ requires [C06 C03 snapshot-at-requested-index] sought == 1 && $arg2.Metadata.Index == idx && $arg2.Data == data && $arg2.Metadata.ConfState == *confState
 //@ set marked = 1
 //@ end
 //@ at call badgerWAL).deleteEntriesUntilIndex
-//@ requires [C06 compacts-up-to-the-snapshot] marked == 1 && $arg2 == idx
+//@ requires [C06 C03 compacts-up-to-the-snapshot] marked == 1 && $arg2 == idx
 //@ set compacted = 1
 //@ end
 //@ at call WriteBatch).Flush
-//@ requires [C06 flushes-marker-and-compaction-together] marked == 1 && compacted == 1
+//@ requires [C06 C03 flushes-marker-and-compaction-together] marked == 1 && compacted == 1
 //@ end
 //@ requires [wal] this != nil && this.db != nil && this.cache != nil
 //@ ensures [C06 snapshot-and-compaction] isnil(ret1) ==> marked == 1 && compacted == 1 && ret0.Metadata.Index == idx
